@@ -53,6 +53,26 @@ def facts(read, die, define):
         "Definition C09_site_metadata_offset_checked : bool := %s." % b(_offset_checked(lw, "parse_site_table_dict", die)),
         "Definition C09_mutation_metadata_offset_checked : bool := %s." % b(_offset_checked(lw, "parse_mutation_table_dict", die)),
     ]
+    # F4: is NaN rejected by Tree.seek (python) or tsk_tree_seek (C)?
+    seek_c = _func_body(read("c/tskit/trees.c"), "tsk_tree_seek", die)
+    if re.search(r"if\s*\(\s*x\s*<\s*0\s*\|\|\s*x\s*>=\s*L\s*\)", seek_c):
+        c_safe = False
+    elif re.search(r"isnan|isfinite|!\s*\(\s*x\s*>=\s*0\s*&&\s*x\s*<\s*L\s*\)", seek_c):
+        c_safe = True
+    else:
+        die("C09: unrecognised bounds guard in tsk_tree_seek")
+    py = read("python/tskit/trees.py")
+    mm = re.search(r"\n    def seek\(self, position\):.*?\n    def ", py, re.S)
+    if not mm:
+        die("C09: Tree.seek not found in trees.py")
+    body = re.sub(r'"""(.*?)"""', "", mm.group(0), flags=re.S)
+    if re.search(r"isnan|isfinite|not\s*\(?\s*0\s*<=\s*position\s*<", body):
+        py_safe = True
+    elif re.search(r"if\s+position\s*<\s*0\s+or\s+position\s*>=", body):
+        py_safe = False
+    else:
+        die("C09: unrecognised bounds guard in Tree.seek")
+    out.append("Definition C09_seek_rejects_nan : bool := %s." % b(c_safe or py_safe))
     m = re.search(r"^#define\s+HARTIGAN_MAX_ALLELES\s+(\d+)", read("c/tskit/trees.c"), re.M)
     if not m:
         die("C09: HARTIGAN_MAX_ALLELES")
